@@ -427,3 +427,82 @@ def equivalent_paths(case, ctx):
         raise Violation("C10.paths.result", f"two update/fit sequences reaching the same plane state give fields that "
                                             f"differ by {float(np.max(np.abs(A - B))) / peak:.3e} of the peak "
                                             f"(fits after updates {case['fit_after'][:len(ramps) - 1]})")
+
+
+# ---------------------------------------------------------------------------------------------------
+# (4) objects derived from a plane are independent of later in-place work on it (and the other way round)
+
+@hyp("C10", "derived_objects", lambda tier: st.fixed_dictionaries(
+        {"seed": st.integers(0, 2**31 - 1), "n": st.sampled_from([8, 9, 10]), "segmented": st.booleans(),
+         "prefit": st.booleans(), "steps": st.lists(st.sampled_from(["fit_inplace", "opd_assign", "opd_inplace",
+                                                                     "amp_assign", "fit_inplace", "tilt_append"]),
+                                                    min_size=1, max_size=5),
+         "side": st.sampled_from(["source", "source", "derived"])}),
+     "a wavefront, a copy, a rescaled plane and a fitted copy are derived from a plane (which may already carry fitted "
+     "tilt); then the source plane (or each derived object) is worked on with the documented in-place operations: "
+     "deep snapshots and propagated images of the other objects must not change", examples=(200, 800), budget_s=(150, 600))
+def derived_objects(case, ctx):
+    n = case["n"]
+    rng = np.random.default_rng(case["seed"])
+    yy, xx = np.mgrid[0:n, 0:n]
+    disc = ((yy - n / 2 + 0.5) ** 2 + (xx - n / 2 + 0.5) ** 2) <= (n / 2 - 0.5) ** 2
+    wl, dx, z = 1e-6, 1e-3, 2.0
+    du = 0.5 / n * wl * z / dx
+    amp = rng.uniform(0.5, 1.5, size=(n, n)) * disc
+    opd = (rng.normal(size=(n, n)) * 0.03 + 0.3 * (yy - n / 2) / n - 0.2 * (xx - n / 2) / n) * wl * disc
+    mask = np.stack([(xx < n // 2) * disc, (xx >= n // 2) * disc]).astype(int) if case["segmented"] else disc.astype(int)
+    with lentil_call("C10.derived.build", "plane and derived objects"):
+        src = lentil.Pupil(amplitude=amp.copy(), opd=opd.copy(), mask=mask.copy(), pixelscale=dx, focal_length=z)
+        if case["prefit"]:
+            src.fit_tilt(inplace=True)              # the plane already carries fitted tilt when objects are derived
+        derived = {"wavefront": lentil.Wavefront(wl) * src, "copy": src.copy(), "rescaled": src.rescale(2),
+                   "fitted_copy": src.fit_tilt(inplace=False)}
+
+    def image(o):
+        w = o if isinstance(o, lentil.Wavefront) else lentil.Wavefront(wl) * o
+        ps = du if not (o is derived.get("rescaled")) else du
+        return lentil.propagate_dft(w, pixelscale=ps, shape=(6, 6), oversample=1).field
+
+    def work_on(p, step, k):
+        if step == "fit_inplace":
+            p.fit_tilt(inplace=True)
+        elif step == "opd_assign":
+            p.opd = np.asarray(p.opd) + 0.1 * wl * (np.arange(np.asarray(p.opd).shape[1])[None, :] - 3) / 8 * (np.asarray(p.mask).sum(axis=0) if np.asarray(p.mask).ndim == 3 else np.asarray(p.mask))
+        elif step == "opd_inplace" and np.ndim(p.opd) == 2 and p.opd.flags.writeable:
+            p.opd[k % p.opd.shape[0], :] += 0.05 * wl
+        elif step == "amp_assign":
+            p.amplitude = np.asarray(p.amplitude) * 0.9
+        elif step == "tilt_append":
+            p.tilt.append(lentil.Tilt(x=1e-6, y=2e-6))
+
+    ctx.tag("segmented" if case["segmented"] else "monolithic", "prefit" if case["prefit"] else "no_prefit",
+            "work_on:" + case["side"], *sorted({"step:" + s for s in case["steps"]}))
+    ctx.nontrivial_if(True)
+    if case["side"] == "source":
+        before = {k: (snap(o), image(o)) for k, o in derived.items()}
+        with lentil_call("C10.derived.work", "in-place work on the source plane"):
+            for k, step in enumerate(case["steps"]):
+                work_on(src, step, k)
+        for k, o in derived.items():
+            if snap(o) != before[k][0]:
+                raise Violation("C10.derived.mutation", f"in-place work on a plane ({' '.join(case['steps'])}) changed the "
+                                                        f"{k} derived from it earlier")
+            with lentil_call("C10.derived.image", f"propagate {k}"):
+                now = image(o)
+            if now.shape != before[k][1].shape or np.max(np.abs(now - before[k][1])) > 1e-12 * max(np.max(np.abs(now)), 1e-300):
+                raise Violation("C10.derived.result", f"the {k} derived from a plane propagates differently after in-place "
+                                                      f"work on that plane ({' '.join(case['steps'])})")
+    else:
+        before = (snap(src), image(src))
+        with lentil_call("C10.derived.work", "in-place work on the derived planes"):
+            for name in ("copy", "rescaled", "fitted_copy"):
+                for k, step in enumerate(case["steps"]):
+                    work_on(derived[name], step, k)
+        if snap(src) != before[0]:
+            raise Violation("C10.derived.mutation", f"in-place work on planes derived from a plane (copy / rescale / fitted "
+                                                    f"copy; {' '.join(case['steps'])}) changed the source plane")
+        with lentil_call("C10.derived.image", "propagate the source plane"):
+            now = image(src)
+        if np.max(np.abs(now - before[1])) > 1e-12 * max(np.max(np.abs(now)), 1e-300):
+            raise Violation("C10.derived.result", "the source plane propagates differently after in-place work on the objects "
+                                                  "derived from it")
